@@ -63,3 +63,72 @@ Proof.
   - intros r. apply mmap_save; exact F.
   - apply save_length; exact F.
 Qed.
+
+(* ---- headline forms: for EVERY valid key list (any variant, any requested mode, any permutation table) ---- *)
+Section Headline.
+Variables (v : Dac.variant) (tbl : list N) (K : list key) (req : bool).
+Hypothesis Hvalid : valid_keys K = true.
+Hypothesis Hsmall : small_keys K.
+Hypothesis Hperm : perm_okb tbl = true.
+
+Theorem headline_ids : exists P, build v tbl K req = Ok P /\
+  id_assignment K (lk P) /\ t_num_keys P = lenN K /\
+  (forall k i, lk P k = Some i -> decode P i = Ok k) /\ (forall i, lenN K <= i -> decode P i = Ok []).
+Proof.
+  destruct (build_wf_thm v tbl K req Hvalid Hsmall Hperm) as (L & P & _ & HP & Hwf & _).
+  exists P. split; [exact HP|].
+  destruct (lookup_thm v L P K Hwf) as (_ & Hid & _). destruct (decode_thm v L P K Hwf) as (Hn & Hd & He).
+  split; [exact Hid|]. split; [exact Hn|]. split; [exact Hd|exact He].
+Qed.
+
+Theorem headline_lookup : exists P, build v tbl K req = Ok P /\
+  forall q, bytes_ok q = true -> lookup P q = Ok (lk P q) /\ (lk P q <> None <-> spec_member K q = true).
+Proof.
+  destruct (build_wf_thm v tbl K req Hvalid Hsmall Hperm) as (L & P & _ & HP & Hwf & _).
+  exists P. split; [exact HP|]. intros q Hq.
+  destruct (lookup_thm v L P K Hwf) as (A & _ & B). split; [apply A|apply B]; exact Hq.
+Qed.
+
+Theorem headline_enumerate : exists P, build v tbl K req = Ok P /\ enumerate P = Ok (with_ids P K) /\
+  forall m, pred_calls P (mk_predictive []) m = Ok (abs_calls (with_ids P K) m).
+Proof.
+  destruct (build_wf_thm v tbl K req Hvalid Hsmall Hperm) as (L & P & _ & HP & Hwf & _).
+  exists P. split; [exact HP|]. split; [exact (enumerate_thm v L P K Hwf)|exact (enumerate_calls_thm v L P K Hwf)].
+Qed.
+
+Theorem headline_prefix : exists P, build v tbl K req = Ok P /\ forall q, bytes_ok q = true ->
+  (forall n, pfx_calls P (mk_prefix q) n = Ok (abs_calls (with_ids P (spec_prefixes K q)) n)) /\
+  prefix_search P q = Ok (with_ids P (spec_prefixes K q)).
+Proof.
+  destruct (build_wf_thm v tbl K req Hvalid Hsmall Hperm) as (L & P & _ & HP & Hwf & _).
+  exists P. split; [exact HP|]. exact (prefix_thm v L P K Hwf).
+Qed.
+
+Theorem headline_predictive : exists P, build v tbl K req = Ok P /\ forall q, bytes_ok q = true ->
+  (forall n, pred_calls P (mk_predictive q) n = Ok (abs_calls (with_ids P (spec_completions K q)) n)) /\
+  predictive_search P q = Ok (with_ids P (spec_completions K q)).
+Proof.
+  destruct (build_wf_thm v tbl K req Hvalid Hsmall Hperm) as (L & P & _ & HP & Hwf & _).
+  exists P. split; [exact HP|]. exact (predictive_thm v L P K Hwf).
+Qed.
+
+Theorem headline_stats : exists P, build v tbl K req = Ok P /\
+  t_num_keys P = lenN K /\ t_max_length P = spec_max_length K /\ t_alphabet_size P = lenN (spec_alphabet K) /\
+  t_bin_mode P = spec_bin_mode req K /\
+  t_num_nodes P + t_num_free_units P = t_num_units P /\ t_num_nodes P = spec_mp_nodes K /\ 1 <= t_tail_length P.
+Proof.
+  destruct (build_wf_thm v tbl K req Hvalid Hsmall Hperm) as (L & P & _ & HP & Hwf & Hbin).
+  exists P. split; [exact HP|].
+  destruct (stats_thm v L P K Hwf) as (A & B & C & D & E & F).
+  pose proof (ph_bin L P (phys_thm v L P K Hwf)) as G. rewrite Hbin in G.
+  split; [exact A|]. split; [exact B|]. split; [exact C|]. split; [exact G|]. split; [exact D|]. split; [exact E|exact F].
+Qed.
+
+Theorem headline_roundtrip : exists P, build v tbl K req = Ok P /\
+  Serial.load v (Serial.save v P) = Ok P /\ (forall r, Serial.mmap v (Serial.save v P ++ r) = Ok P) /\
+  lenN (Serial.save v P) = Serial.memory_in_bytes v P.
+Proof.
+  destruct (build_wf_thm v tbl K req Hvalid Hsmall Hperm) as (L & P & _ & HP & Hwf & _).
+  exists P. split; [exact HP|]. exact (built_roundtrip_thm v L P K Hwf).
+Qed.
+End Headline.
